@@ -4,6 +4,7 @@ CONSTANTS
   MeshNames = {"line", "rect", "tri", "prod", "box", "tet", "prod3"}
   RefineOn = {"line", "tri"}
   MaxLevel = 1
+  Refine2On = {"line"}
   GeomIds = {1, 2, 3, 4, 5, 6, 7, 8, 9, 10, 11, 12, 13, 14, 15, 16, 17, 18, 19, 20, 21}
   FieldIds = {2, 7, 13}
   Lattice = 2
@@ -11,7 +12,7 @@ CONSTANTS
   IntegrateOn = {"line", "rect", "tri", "tet"}
   BFieldOn = {"tri", "box", "tet"}
   RefineOnB = {"tet"}
-  ProdGeomIds = {22}
+  ProdGeomIds = {12, 22}
   GmMutant = "none"
 INVARIANT TypeOK
 INVARIANT GradIsDerivative
